@@ -6,5 +6,5 @@ CONSTANTS
   SynDepth = 2
   Outer3 <- OuterRep
   MaxIn = 3
-INVARIANTS TypeOK CleanupOnce HandlerFirstMatch NoneLost EscapeIntact FinalOK RejectedNeverRuns
+INVARIANTS TypeOK CleanupOnce HandlerFirstMatch NoneLost HandledStack EscapeIntact FinalOK RejectedNeverRuns
 CHECK_DEADLOCK TRUE
